@@ -127,7 +127,10 @@ def execute(op: dict, A, B):
         elif name == "subset_int":
             res = A.subset(int(op["i"]))
         elif name == "subset_slice":
-            res = A.subset(slice(op["a"], op["b"]))
+            res = A.subset(slice(op["a"], op["b"], op.get("step", 1)))
+        elif name == "peek":
+            q = op["q"]
+            res = A.head(q["n"]) if q["name"] == "head" else A.tail(q["n"]) if q["name"] == "tail" else A.filter(_pred(q["pred"]))
         elif name == "subset_list":
             res = A.subset(list(op["idx"]))
         elif name == "subset_mask":
